@@ -121,6 +121,12 @@ theorem RRel.bind {α γ : Type} {A : ARel α} {B : ARel γ} {r r' : Res N α} {
   · exact h
   · trivial
 
+theorem RRel.bindEq {α γ : Type} {B : ARel γ} {r r' : Res N α} {f f' : α → State N → Res N γ}
+    (h : RRel Q β AEq r r')
+    (hf : ∀ β', β.le β' → ∀ a σ σ', SRel Q β' σ σ' → RRel Q β' B (f a σ) (f' a σ')) :
+    RRel Q β B (r.bind f) (r'.bind f') :=
+  RRel.bind h fun β' hle a a' ha σ σ' hs => by cases ha; exact hf β' hle a σ σ' hs
+
 /-- change the payload relation -/
 theorem RRel.mapA {α : Type} {A B : ARel α} {r r' : Res N α} (h : RRel Q β A r r')
     (hab : ∀ β', β.le β' → ∀ a a', A β' a a' → B β' a a') : RRel Q β B r r' := by
